@@ -140,8 +140,10 @@ def struct_fields(src, name):
 class ZddExec(Exec):
     """executor specialised to the family abstraction"""
 
-    def __init__(self, mod, U, specs, **kw):
-        hooks = [(re.compile(p), f) for p, f in self._hooks()] + models.generic_hooks()
+    def __init__(self, mod, U, specs, extra_hooks=(), **kw):
+        from vlib import containers
+        hooks = [(re.compile(p) if isinstance(p, str) else p, f) for p, f in extra_hooks] + [(re.compile(p), f) for p, f in self._hooks()] \
+            + containers.container_hooks() + models.generic_hooks()
         super().__init__([mod], hooks, variants={'ZddRef': ['Empty', 'Base', 'Node']}, **kw)
         self.U = U
         self.specs = specs          # cache kind -> spec(key) -> value expr ; and contracts
